@@ -79,6 +79,9 @@ HEADERS = ['#diffx:', '#.change:', '#..file:', '#.meta:', '#..meta:', '#...meta:
 OPTIONS = ['', '', ' ', ' version=1.0', ' length=3', ' length=12, encoding=utf-8', ' format=json, length=2', '  x',
            ' \xe9=あ', 'x=1', ' a=b\r', ' indent=\u00b2, length=6', ' indent=\u2460', ' length=\u0663', ' indent=' + '9' * 4301,
            ' indent=-1', ' indent=True', ' indent= 4', ' mimetype=text/markdown, indent=\u00b3']
+OPTION_KEYS = ['encoding', 'length', 'indent', 'line_endings', 'format', 'version', 'type', 'mimetype', 'x']
+HOSTILE_VALUES = ['', '\x00', 'a\x00b', '\ud800', 'x\udcff', '\ufeff', 'utf-8\x00', 'bogus', 'utf-16', '\u0663', '-', '%s', '{0}', '\x85',
+                  '\u2028', ' ', 'a b', '\t', '=', ',', '\xe9', '\U0001f600', '9' * 5000, 'text/x-diff; charset=utf-16', '\\N{DIGIT ONE}']
 LINES = ['{\n', '    "a": 1,\n', '}\n', '{"k": [true, null, "s"]}\n', 'not json\n', '--- a/f\n', '+++ b/f\n',
          '@@ -1,2 +1,2 @@\n', '-old\n', '+new\n', ' ctx\n', 'delta 3\n', 'delta 12\n', 'delta ٣\n', 'delta x\n',
          '...\n', '....\n', ' ...\n', '\n', 'text', 'text\r\n', '#.x\n', '#. \n', '#..f', '#.Z\n', 'a #.b\n', '#\n', '\xe9\n',
@@ -202,6 +205,13 @@ class Lex(Family):
             yield dict(kind='random', text=gen_random(rng))
         for _ in range(400 if quick else 7000):
             yield dict(kind='shaped', text=gen_shaped(rng))
+        # every header rule x every option key x hostile values (NUL, lone surrogates, separators, non-decimal digits, unknown
+        # names, very long), as the first option and after another one: option TEXT is never interpreted by a highlighter
+        for h in HEADERS[:10]:
+            for key in OPTION_KEYS:
+                for val in HOSTILE_VALUES:
+                    yield dict(kind='option-grid', text='#diffx: version=1.0\n%s %s=%s\nbody\n#.change:\n' % (h, key, val))
+                    yield dict(kind='option-grid', text='%s a=b, %s=%s, c=d\n' % (h, key, val))
         # size boundaries: very long option texts and body lines, many sections
         for n in (255, 1024, 4096, 8193):
             yield dict(kind='big', text='#diffx: version=1.0, x=' + 'v' * n + '\n#.preamble: length=%d\n' % (n + 1) + 'p' * n + '\n#.change:\n')
